@@ -726,3 +726,98 @@ func vNestedFirstUse(kind int) {
 }
 func VerifC03_NestedFirstUsePlain() { vNestedFirstUse(0) }
 func VerifC03_NestedFirstUseRel()   { vNestedFirstUse(1) }
+
+// ---- the life cycle of ONE typed filter object: fixed targets or not, then every history
+// of {Batch with a per-call target, Query with a per-query target, Query without, Register,
+// Unregister} of the given length. Every Query must yield exactly the model set for ITS
+// OWN relation constraint — nothing may leak from earlier Batch / Query / Register calls
+// through the relation slices the filter object keeps.
+func vFilterLifecycle(steps int) {
+	W := vShapeFor(1)
+	p0, p1 := W.e[0].h, W.e[1].h
+	cands := [3]Entity{p0, p1, {}}
+	f := NewFilter2[vChild, vPos](W.w)
+	var mask bitMask
+	mask.Set(W.id[cR1].id)
+	mask.Set(W.id[cA].id)
+	fixed := vPick("fixed-target", 2) == 1
+	fixedT := p0
+	if fixed {
+		f.Relations(RelIdx(0, fixedT))
+	}
+	registered := false
+	walk := func(tag string, hasT bool, t Entity, rel []Relation) {
+		q := &vQuerySpec{f: filter{mask: mask, cache: maxCacheID}, hasRel: hasT, relComp: cR1, target: t}
+		qc := f.Query(rel...)
+		cnt := qc.Count()
+		qc.Close()
+		qu := f.Query(rel...)
+		var visits [vNE]int
+		strangers, total := 0, 0
+		for qu.Next() {
+			j := W.indexOf(qu.Entity())
+			if j < 0 {
+				strangers++
+				continue
+			}
+			visits[j]++
+			total++
+			if total > vNE {
+				break
+			}
+		}
+		n := W.checkVisits(tag, q, &visits, strangers, total)
+		vcheck(tag+"/count", cnt == n)
+		vcheck(tag+"/unlocked", !W.w.IsLocked())
+	}
+	for s := 0; s < steps; s++ {
+		switch vPick("action", 5) {
+		case 0:
+			if fixed {
+				_ = f.Batch()
+			} else {
+				_ = f.Batch(RelIdx(0, cands[vPick("batch-target", 3)]))
+			}
+		case 1:
+			if fixed {
+				walk("query", true, fixedT, nil)
+			} else {
+				t := cands[vPick("query-target", 3)]
+				walk("query", true, t, []Relation{RelIdx(0, t)})
+			}
+		case 2:
+			if fixed {
+				walk("query", true, fixedT, nil)
+			} else {
+				walk("query-all", false, Entity{}, nil)
+			}
+		case 3:
+			if !registered {
+				f.Register()
+				registered = true
+			}
+		case 4:
+			if registered {
+				f.Unregister()
+				registered = false
+			}
+		}
+	}
+	// whatever happened before: a final query per kind
+	if fixed {
+		walk("final", true, fixedT, nil)
+	} else {
+		walk("final-all", false, Entity{}, nil)
+		walk("final-p1", true, p1, []Relation{RelIdx(0, p1)})
+	}
+	if registered {
+		f.Unregister()
+	}
+	W.checkAll("after")
+	vreach("end")
+}
+
+func VerifC05_FilterLifecycle()  { vFilterLifecycle(3) }
+func VerifC05T_FilterLifecycle() { vFilterLifecycle(4) }
+func VerifC03_FilterLifecycle()  { vFilterLifecycle(2) }
+func VerifC14_FilterLifecycle()  { vFilterLifecycle(2) }
